@@ -38,7 +38,7 @@ Qed.
 Definition Spec (c : case) (o : obs) : Prop :=
   match c, o with
   | CMsg ctx h ops, ObsMsg m bytes ctx_same parsed reser_same =>
-      built m ->
+      demandedb ops m = true ->
       ctx_same = true /\ parsed = POk (pad_canon m) /\ reser_same = true /\
       firstn 20 bytes = enc_mheader (m_hdr m) /\ Frames (m_subs m) (skipn 20 bytes)
   | CMsg _ _ ops, ObsPanic => build ops = None
@@ -76,7 +76,7 @@ Theorem oracle_sound c o : ok c o = true <-> Spec c o.
 Proof.
   destruct c as [ctx h ops|bs|k base set]; destruct o as [m bytes cs p rs|p rs|s it le be rr|];
     cbn [ok Spec]; try (split; [discriminate|contradiction]).
-  - unfold built. destruct (builtb m).
+  - destruct (demandedb ops m).
     + rewrite !andb_true_iff, !dec2b_iff, frames_ok_spec. split.
       * intros ((((A & B) & C) & D) & E) _. auto.
       * intros H. destruct (H eq_refl) as (A & B & C & D & E). auto.
@@ -111,11 +111,64 @@ Proof.
   - rewrite <- N. rewrite skipn_app, Nat.sub_diag, skipn_all. reflexivity.
 Qed.
 
+(* what `demandedb` means, and that for the model's own runs it is just `built` *)
+Lemma demanded_spec ops m :
+  demandedb ops m = true <->
+  built m \/ (existsb is_raw ops = false /\ built_hdrb (m_hdr m) = true /\
+              forallb built_sub_looseb (m_subs m) = true).
+Proof.
+  unfold demandedb, built. rewrite orb_true_iff, !andb_true_iff, negb_true_iff. tauto.
+Qed.
+
+Lemma build_op_mk o s :
+  is_raw o = false -> build_op o = Some (Some s) -> sm_len s = u16trunc (len_serialized (sm_body s)).
+Proof.
+  destruct o; cbn [is_raw build_op]; try discriminate; intros _ E;
+    try (inversion E; subst s; reflexivity).
+  - unfold build_datafrag in E. destruct d; try discriminate;
+      (destruct (fnum <? 1); [discriminate|]); inversion E; subst s; reflexivity.
+  - unfold build_gap in E. destruct sns as [|g0 r]; [discriminate|].
+    destruct (run_end g0 r); [|discriminate].
+    destruct (ns_from_base_and_set _ _ _); [|discriminate]. inversion E; subst s. reflexivity.
+Qed.
+
+Lemma build_mk ops : forall subs,
+  existsb is_raw ops = false -> build ops = Some subs ->
+  Forall (fun s => sm_len s = u16trunc (len_serialized (sm_body s))) subs.
+Proof.
+  induction ops as [|o ops IH]; intros subs R B; cbn [build] in B.
+  - inversion B. constructor.
+  - cbn [existsb] in R. apply orb_false_iff in R as [R1 R2].
+    destruct (build_op o) as [[s|]|] eqn:E; [| |discriminate];
+      (destruct (build ops) as [l|]; [|discriminate]); inversion B; subst subs.
+    + constructor; [eapply build_op_mk; eauto|]. apply IH; auto.
+    + apply IH; auto.
+Qed.
+
+Lemma loose_to_built s :
+  built_sub_looseb s = true -> sm_len s = u16trunc (len_serialized (sm_body s)) -> built_subb s = true.
+Proof.
+  unfold built_sub_looseb, built_subb. intros H E. bsplit H.
+  pose proof (len_serialized_ok LE _ _ B) as L. pose proof (len_nonneg (enc_body LE (sm_body s))) as N.
+  apply Z.ltb_lt in B0. unfold u16trunc in E. rewrite Z.mod_small in E by lia.
+  rewrite H, B3, B2, B1, B, E, Z.eqb_refl. cbn [andb].
+  destruct (Z.ltb_spec (len_serialized (sm_body s)) 65536); [reflexivity|lia].
+Qed.
+
+Lemma demanded_model ops subs h :
+  build ops = Some subs -> demandedb ops (Msg h subs) = true -> built (Msg h subs).
+Proof.
+  intros B D. apply demanded_spec in D as [D|(R & H & F)]; [exact D|].
+  unfold built, builtb. cbn [m_hdr m_subs] in *. rewrite H. cbn [andb].
+  pose proof (build_mk ops subs R B) as M. apply forallb_forall. intros s Hs.
+  rewrite forallb_forall in F. rewrite Forall_forall in M. apply loose_to_built; auto.
+Qed.
+
 Theorem model_ok c : ok c (run c) = true.
 Proof.
   apply oracle_sound. destruct c as [ctx h ops|bs|k base set]; cbn [run].
   - destruct (build ops) as [subs|] eqn:B; [|exact B].
-    cbn [Spec]. intros Hb. rewrite (roundtrip ctx _ Hb).
+    cbn [Spec]. intros Hd. pose proof (demanded_model ops subs h B Hd) as Hb. rewrite (roundtrip ctx _ Hb).
     split; [apply dec2b_iff; reflexivity|]. split; [reflexivity|].
     split; [apply dec2b_iff; apply ser_pad_canon|].
     unfold built, builtb in Hb. apply andb_true_iff in Hb as [Hh Hs]. cbn [m_hdr m_subs] in *.
